@@ -902,6 +902,14 @@ def r14m(ctx, rep, rule="R14m"):
         if not found:
             rep.anchor_lost(rule, "loop test of %s" % name)
             continue
+        formals = d[1][1:]
+        dot = [i for i, x in enumerate(formals) if x == "."]
+        required = dot[0] if dot else len(formals)
+        (rep.ok if required >= 2 else rep.fail)(
+            rule, "%s|%s|requires-a-list" % (rule, name),
+            "%s requires a procedure and at least one list" % name if required >= 2 else
+            "%s accepts a call with no list: the walk's termination test over zero lists is never true, so (%s f) applies f to no "
+            "arguments for ever and conses without bound instead of reporting an arity error" % (name, name))
         test, params = found[0]
         tests[name] = show(test)
 
@@ -920,6 +928,49 @@ def r14m(ctx, rep, rule="R14m"):
                      "runs off its end instead of stopping at the shortest list" % (name, show(test)))
 
 
+# R7RS small 6.4 / 6.8: (min, max) operands of the list and vector procedures C14 names that are Rust builtins
+R7RS_ARITY_C14 = {
+    "cons": (2, 2), "car": (1, 1), "cdr": (1, 1), "set-car!": (2, 2), "set-cdr!": (2, 2), "append": (0, None), "reverse": (1, 1),
+    "list-tail": (2, 2), "list-ref": (2, 2), "list?": (1, 1), "vector": (0, None), "make-vector": (1, 2), "vector-length": (1, 1),
+    "vector-ref": (2, 2), "vector-set!": (3, 3), "vector-fill!": (2, 4), "vector->list": (1, 3), "list->vector": (1, 1),
+    "vector-copy": (1, 3), "vector-copy!": (3, 5), "equal?": (2, 2), "eqv?": (2, 2), "eq?": (2, 2),
+}
+RANGE_PROCS = ["marwood::vm::builtin::vector::vector_copy", "marwood::vm::builtin::vector::vector_mut_copy",
+               "marwood::vm::builtin::vector::vector_range"]
+
+
+def r14o(ctx, rep, rule="R14o"):
+    from .. import shapes
+    facts = ctx["facts"]
+    rep.rule(rule, "range bounds may equal the length: R7RS admits start <= end <= length for the ranged vector procedures, so in "
+             "vector-copy, vector-copy! and the shared range helper every InvalidVectorIndex exit for a bound (start, end, at) is "
+             "taken on `bound > length`, never on `bound >= length` (that test is for element indices, vector-ref / vector-set!). "
+             "With >= a copy of zero elements at the end of a vector — (vector-copy v (vector-length v)) — is an error.")
+    n = 0
+    for path in RANGE_PROCS:
+        f = facts.fns.get(path) if path.endswith("vector_range") else need(rep, rule, facts, path)
+        if f is None:
+            continue
+        k = 0
+        for bb, j, st in f.stmts():
+            rv = st["rv"]
+            if not (rv["k"] == "agg" and rv.get("variant") == "InvalidVectorIndex"):
+                continue
+            k += 1
+            n += 1
+            bound = shapes.shape(f, rv["ops"][0], 3)
+            g = shapes.guard_shapes(f, bb, None, 3)
+            strict = [x for x in g if x.startswith("(Gt " + bound + " ") and x.endswith("=T")]
+            weak = [x for x in g if (x.startswith("(Ge " + bound + " ") and x.endswith("=T")) or (x.startswith("(Lt " + bound + " ") and x.endswith("=F"))]
+            key = "%s|%s|bound#%d" % (rule, f.short.rsplit("::", 1)[-1], k)
+            if weak or not strict:
+                rep.fail(rule, key, "%s rejects a range bound on %s: a bound equal to the length is valid (it denotes an empty "
+                         "range at the end of the vector)" % (f.short, (weak or ["a test other than `bound > length`"])[0][:120]), [st["loc"]])
+            else:
+                rep.ok(rule, key, "%s rejects this bound only when it exceeds the length" % f.short, [st["loc"]])
+    rep.floor(rule, "InvalidVectorIndex exits of the ranged vector procedures", n, 5)
+
+
 def run(ctx, rep):
     r14a(ctx, rep)
     r14b(ctx, rep)
@@ -933,6 +984,9 @@ def run(ctx, rep):
     r14k(ctx, rep)
     r14l(ctx, rep)
     r14m(ctx, rep)
+    r14o(ctx, rep)
+    from . import popbalance
+    popbalance.r_arity_table(ctx, rep, "R14n", R7RS_ARITY_C14, "the list and vector procedures C14 names")
     from .C15 import fresh_results
     fresh_results(ctx, rep, "R14j", "Vector", "marwood::vm::vcell::VCell::vector", "vector", "vector-set!", 1, 3)
     from . import C06
